@@ -70,6 +70,9 @@ def generate(rng, focus, tier="quick"):
     }
     n_reb = rng.randrange(2, 9)
     enabled = set(k for k in FAULTS if rng.random() < 0.6)
+    # a second portfolio on the same broker, rebalanced by its own construction model at the same instants
+    cfg["neighbour"] = rng.random() < 0.35
+    cfg["cash2"] = rng.choice([1e4, 4e5, 1e6])
     if uk == "static":
         k = rng.randrange(1, n_assets + 1)
         cfg["universe"] = sorted(rng.sample(assets, k))
@@ -137,6 +140,10 @@ def generate(rng, focus, tier="quick"):
             if len(keys) == 1:
                 w[rng.choice([a for a in assets if a != keys[0]] or keys)] = 0.5
         step = {"k": "rebalance", "t": now, "weights": w}
+        if cfg["neighbour"]:
+            ks2 = rng.sample(assets, rng.randrange(1, len(assets) + 1))
+            step["weights2"] = dict((a, rng.choice([0.25, 0.5, 0.75, 1.0]) * (-1 if (not long_only and rng.random() < 0.3) else 1))
+                                    for a in ks2)
         if uk == "scripted":
             step["universe"] = sorted(rng.sample(assets, rng.randrange(0, n_assets + 1)))
         if "nan_price_for_universe_asset" in enabled and rng.random() < 0.1:
@@ -232,6 +239,53 @@ def _run(plan, ctx):
     pcm = PortfolioConstructionModel(broker, PID, uni, sizer, opt, alpha_model=alpha, data_handler=qb)
     handler = ExecutionHandler(broker, PID, uni, submit_orders=True, execution_algo=MarketOrderExecutionAlgorithm(),
                                data_handler=qb)
+    # ---- optional neighbour portfolio (same broker, own construction model and execution handler) ----
+    nb = None
+    if cfg.get("neighbour"):
+        nb = {"pid": "q", "alpha": _Alpha(), "txns": [], "target": None, "awaiting": None}
+        broker.subscribe_funds_to_account(cfg["cash2"])
+        broker.create_portfolio("q", "neighbour")
+        broker.subscribe_funds_to_portfolio("q", cfg["cash2"])
+        if cfg["long_only"]:
+            sz2 = DollarWeightedCashBufferedOrderSizer(broker, "q", qb, cash_buffer_percentage=cfg["cash_buffer"])
+        else:
+            sz2 = LongShortLeveragedOrderSizer(broker, "q", qb, gross_leverage=cfg["leverage"])
+        nb["sizer"] = sz2
+        nb["pcm"] = PortfolioConstructionModel(broker, "q", uni, sz2, FixedWeightPortfolioOptimiser(data_handler=qb),
+                                               alpha_model=nb["alpha"], data_handler=qb)
+        nb["handler"] = ExecutionHandler(broker, "q", uni, submit_orders=True,
+                                         execution_algo=MarketOrderExecutionAlgorithm(), data_handler=qb)
+        pf2 = broker.portfolios["q"]
+        inner2 = pf2.transact_asset
+
+        def transact2(txn):
+            nb["txns"].append({"asset": txn.asset, "qty": txn.quantity})
+            return inner2(txn)
+        pf2.transact_asset = transact2
+
+        def sizer2_call(inner, dt, weights):
+            out = inner(dt, weights)
+            nb["target"] = dict((a, v["quantity"]) for a, v in out.items())
+            return out
+        nb["pcm"].order_sizer = sl._CallProxy(sz2, sizer2_call)
+
+    def nb_held():
+        h = {}
+        for x in nb["txns"]:
+            h[x["asset"]] = h.get(x["asset"], 0) + x["qty"]
+        return dict((a, q) for a, q in h.items() if q != 0)
+
+    def nb_check(label, t_):
+        if nb["awaiting"] is None:
+            return
+        want = dict((a, q) for a, q in nb["awaiting"].items() if q != 0)
+        nb["awaiting"] = None
+        if ctx.judging("C09"):
+            got = nb_held()
+            ctx.check("C09", got == want, "neighbour_portfolio_holdings_after_fills_differ_from_its_target",
+                      lambda: {"when": label, "t": iso(t_), "holdings": got, "target": want},
+                      sig="neighbour_portfolio_holdings_after_fills_differ_from_its_target")
+
     # ---- monitors (instance wrapping) ----
     txns = []
     pf = broker.portfolios[PID]
@@ -313,6 +367,8 @@ def _run(plan, ctx):
                 raise StopRun()
             now = t
             ctx.event("tick", t, len(txns) - n0)
+            if nb is not None and is_open_ref(t):
+                nb_check("tick", t)
             if awaiting is not None and is_open_ref(t):
                 j, target = awaiting
                 awaiting = None
@@ -481,6 +537,25 @@ def _run(plan, ctx):
         except Exception as e:
             ctx.violate("C09", "execution_raised", {"exc": repr(e)[:300]})
             raise StopRun()
+        if nb is not None:
+            nb["alpha"].w = dict(op.get("weights2", {}))
+            had_pending2 = len(getattr(broker.open_orders["q"], "queue", [])) > 0
+            nb["target"] = None
+            try:
+                orders2 = nb["pcm"](ts(t), stats=None)
+                nb["handler"](ts(t), orders2)
+                if nb["target"] is not None and not had_pending2:
+                    nb["awaiting"] = dict(nb["target"])
+                    ctx.probe("neighbour_portfolio_rebalanced_at_the_same_instant")
+                    if open_now:
+                        nb_check("immediate", t)
+                else:
+                    nb["awaiting"] = None
+            except StopRun:
+                raise
+            except Exception:
+                nb["awaiting"] = None
+                ctx.probe("neighbour_rebalance_raised")
         if target is not None:
             if open_now:
                 if ctx.judging("C09"):
